@@ -187,9 +187,17 @@ impl GraphEngine {
 
     pub fn begin_read(&self) -> Snapshot {
         let runs = self.published_runs.read().unwrap().clone();
+        #[cfg(nervusdb_verif)]
+        crate::verif::point("snap.runs");
         let segments = self.published_segments.read().unwrap().clone();
+        #[cfg(nervusdb_verif)]
+        crate::verif::point("snap.segments");
         let labels = self.published_labels.read().unwrap().clone();
+        #[cfg(nervusdb_verif)]
+        crate::verif::point("snap.labels");
         let node_labels = self.published_node_labels.read().unwrap().clone();
+        #[cfg(nervusdb_verif)]
+        crate::verif::point("snap.node_labels");
         let (properties_root, stats_root) =
             load_properties_and_stats_roots(&self.properties_root, &self.stats_root);
         build_snapshot_from_published(
@@ -244,6 +252,8 @@ impl GraphEngine {
         // It's a new label.
         // We update memory first to get the authoritative ID.
         let returned_id = interner.get_or_create(name);
+        #[cfg(nervusdb_verif)]
+        crate::verif::point("label.interned");
 
         // Durability: Log to WAL (post-facto, but before return)
         // We wrap this in a mini-transaction to ensure replayability.
@@ -258,6 +268,8 @@ impl GraphEngine {
             wal.append(&WalRecord::CommitTx { txid })?;
             wal.fsync()?;
         }
+        #[cfg(nervusdb_verif)]
+        crate::verif::point("label.logged");
 
         // Update Published Snapshot
         let snapshot = interner.snapshot();
@@ -339,6 +351,8 @@ impl GraphEngine {
             seg.persist(&mut pager)?;
             pager.sync()?;
         }
+        #[cfg(nervusdb_verif)]
+        crate::verif::point("compact.persisted");
 
         let up_to_txid = runs.iter().map(|r| r.txid()).max().unwrap_or(0);
         let epoch = self.manifest_epoch.load(Ordering::Relaxed) + 1;
@@ -410,6 +424,8 @@ impl GraphEngine {
 
             current_root = tree.root().as_u64();
         }
+        #[cfg(nervusdb_verif)]
+        crate::verif::point("compact.sunk");
 
         // Statistics Collection - read directly from IdMap for accuracy
         let mut stats = crate::stats::GraphStatistics::default();
@@ -468,19 +484,29 @@ impl GraphEngine {
             wal.append(&WalRecord::CommitTx { txid: system_txid })?;
             wal.fsync()?;
         }
+        #[cfg(nervusdb_verif)]
+        crate::verif::point("compact.logged");
 
         // 4. Update memory state
         self.checkpoint_txid.store(up_to_txid, Ordering::SeqCst);
         self.properties_root.store(current_root, Ordering::SeqCst);
+        #[cfg(nervusdb_verif)]
+        crate::verif::point("compact.props_root");
         self.stats_root.store(stats_root, Ordering::SeqCst);
+        #[cfg(nervusdb_verif)]
+        crate::verif::point("compact.stats_root");
         {
             let mut cur_runs = self.published_runs.write().unwrap();
             *cur_runs = Arc::new(Vec::new());
         }
+        #[cfg(nervusdb_verif)]
+        crate::verif::point("compact.runs_cleared");
         {
             let mut cur_segs = self.published_segments.write().unwrap();
             *cur_segs = new_segments;
         }
+        #[cfg(nervusdb_verif)]
+        crate::verif::point("compact.segments");
 
         self.manifest_epoch.store(epoch, Ordering::Relaxed);
         if !has_properties {
@@ -1066,6 +1092,8 @@ impl<'a> WriteTxn<'a> {
             wal.append(&WalRecord::CommitTx { txid: self.txid })?;
             wal.fsync()?;
         }
+        #[cfg(nervusdb_verif)]
+        crate::verif::point("commit.logged");
 
         let has_new_nodes = !self.created_nodes.is_empty();
         let has_label_additions = !self.pending_label_additions.is_empty();
@@ -1085,15 +1113,21 @@ impl<'a> WriteTxn<'a> {
                 idmap.apply_remove_label(&mut pager, node, label_id)?;
             }
         }
+        #[cfg(nervusdb_verif)]
+        crate::verif::point("commit.idmap");
 
         let has_label_mutations = has_new_nodes || has_label_additions || has_label_removals;
         if has_label_mutations {
             self.engine.update_published_node_labels();
         }
+        #[cfg(nervusdb_verif)]
+        crate::verif::point("commit.node_labels");
 
         if !run.is_empty() {
             self.engine.publish_run(Arc::new(run));
         }
+        #[cfg(nervusdb_verif)]
+        crate::verif::point("commit.run");
 
         self.engine.next_txid.fetch_add(1, Ordering::Relaxed);
 
